@@ -416,6 +416,34 @@ def c06_6(ctx, ss):
                           "grammar()/grammar_info()/a first parse() are ignored")
         else:
             ctx.holds("C06.6", k, where(outer, outer.node), "every writer of the registered names invalidates the cached grammar info", len(writers))
+    # the callback runs when a Lark parser is BUILT: parse() must build one every time, or every writer of the names must
+    # drop the parser that is kept
+    pfn, pflow = fn(ss, DEC, "DecFileParser.parse")
+    builds = [c for c in pf.calls_in(pfn.node) if txt(c.func) in ("Lark", "lark.Lark") and any(kw.arg == "edit_terminals" for kw in c.keywords)]
+    kb = ckey(pfn, None, "parser-built-per-parse")
+    if not builds:
+        ctx.violation("C06.6", kb, where(pfn, pfn.node), "parse() builds no Lark parser with the model-name callback: registered names are never injected")
+    else:
+        st_b = stmt_of(pfn, builds[0])
+        if pflow.cfg.must_pass({pflow.cfg.node_of(st_b)}):
+            ctx.holds("C06.6", kb, where(pfn, builds[0]), "every parse() builds its parser, so the callback sees the names registered so far", 1)
+        else:
+            conds = [e for kind, e, pol in guards.path_conditions(pfn.node, st_b) if kind == "if"]
+            kept = {a.attr for e in conds for a in ast.walk(e) if isinstance(a, ast.Attribute) and isinstance(a.value, ast.Name) and a.value.id == "self"}
+            bad = []
+            for f_, n in writers:
+                if f_.qualname == "DecFileParser.__init__":
+                    continue
+                resets = {t.attr for s_ in pf.iter_stmts(f_.node.body) if isinstance(s_, ast.Assign) for t in s_.targets
+                          if isinstance(t, ast.Attribute) and isinstance(t.value, ast.Name) and t.value.id == "self"}
+                if not kept or not kept <= resets:
+                    bad.append(f_)
+            if bad:
+                ctx.violation("C06.6", kb, where(pfn, builds[0]),
+                              f"parse() keeps its Lark parser ({sorted(kept) or 'conditionally built'}) and {bad[0].qualname} changes the registered names without dropping it: "
+                              "names registered after a first parse() are rejected by the next one")
+            else:
+                ctx.holds("C06.6", kb, where(pfn, builds[0]), "the kept parser is dropped by every writer of the registered names", len(writers))
     # re-iterable storage
     for f_, n in writers:
         fl = flow_of(ss, f_)
